@@ -176,6 +176,14 @@ func head(v []byte) string {
 	return ""
 }
 
+// ReadItemPublic records an item for other packages (value path chosen by the flag).
+func ReadItemPublic(it *badger.Item, viaValue bool) ItemRec {
+	if viaValue {
+		return readItem(it, "value")
+	}
+	return readItem(it, "copy")
+}
+
 func readItem(it *badger.Item, path string) ItemRec {
 	r := ItemRec{Key: string(it.KeyCopy(nil)), Version: it.Version(), Dead: it.IsDeletedOrExpired(), UserMeta: it.UserMeta(),
 		ExpiresAt: it.ExpiresAt(), Discard: it.DiscardEarlierVersions(), Path: path}
